@@ -96,3 +96,10 @@ from c05refine_part import MODULES as _C05R_MODULES, THEOREMS as _C05R_THEOREMS,
 PROP["modules"] += _C05R_MODULES
 PROP["theorems"] += _C05R_THEOREMS
 PROP["manifest"]["level_text"] += _C05R_TEXT
+
+PROP["assumptions"] += [
+    "`su rwalk` (a STREAM subscription set up while the match tree is held by another subscriber's callback) and `cc qvd` "
+    "(corpus) are judged by Go-side monitors on the real server / tree; the ordering they probe (register first, walk "
+    "second; a walk keeps its nodes read-locked until the visitor returns) is what C04L / the sequential model assume as "
+    "atomic steps",
+]
